@@ -7,6 +7,8 @@ from symx.proto import (Entropy, setup_hash_axioms, outcome, okind, orders, new_
                         abstract_params, klass, PEER, SIDE_BYTE)
 
 PID = "C07"
+TECHNIQUE = 'inductive step over a symbolic pre-state (symbolic finished flag, real constructors/restores) against a 4-state specification automaton, plus bounded symbolic histories (depth 2 quick / 4 thorough)'
+LEVEL_NOTE = 'induction over histories; abstract group'
 EXPLANATION = (
     "Inductive step instead of history enumeration: an instance of each real class is built by the real constructor, "
     "by the real start(), or by the real from_serialized(); its _finished flag is then replaced by a symbolic boolean "
